@@ -424,6 +424,16 @@ impl Check for C08 {
         if g.chance(1, 25) {
             return Sc::One { m: gen_big_matrix(g), rng: RngSpec::swarm(g) };
         }
+        if run % 5 == 2 {
+            // dense sweep (by run index) of population sizes 1..=40 x configured case counts 0..=12
+            let idx = run / 5;
+            let (n, c) = (1 + (idx % 40) as usize, ((idx / 40) % 13) as usize);
+            let avail = c + g.urange(0, 2);
+            let hi = g.range(1, 3);
+            let rows = (0..n).map(|_| (0..avail).map(|_| g.range(0, hi) as i64).collect()).collect();
+            let m = Matrix { polarity: if g.coin() { Polarity::Score } else { Polarity::Error }, rows, c };
+            return Sc::One { m, rng: RngSpec::swarm(g) };
+        }
         let sens = g.coin();
         Sc::One { m: gen_matrix(g, sens), rng: RngSpec::swarm(g) }
     }
